@@ -1028,6 +1028,11 @@ func (g *Gen) appendBuiltin(c *ssa.CallCommon, args []Term, res ssa.Value) {
 		s.S, s.S, n, nv, r.S, r.S, src, r.S))
 	g.assumeRaw(fmt.Sprintf("(forall ((i Int)) (! (=> (and (= (sarr %s) (sarr %s)) (or (< i (+ (soff %s) (slen %s))) (>= i (+ (soff %s) (slen %s) %s)))) (= (select (select %s (sarr %s)) i) (select (select %s (sarr %s)) i))) :pattern ((select (select %s (sarr %s)) i))))",
 		r.S, s.S, s.S, s.S, s.S, s.S, n, nv, r.S, old, r.S, nv, r.S))
+	// ground instances of the appended-range fact for the first and the last appended element: they put the terms
+	// (idx r |s|) and (idx r |r|-1) on the table, the witnesses that "exists an element such that" goals need
+	for _, j := range []string{fmt.Sprintf("(slen %s)", s.S), fmt.Sprintf("(- (slen %s) 1)", r.S)} {
+		g.assumeRaw(fmt.Sprintf("(=> (>= %s 1) (= (select (select %s (sarr %s)) (idx %s %s)) %s))", n, nv, r.S, r.S, j, strings.ReplaceAll(src, " j ", " "+j+" ")))
+	}
 }
 
 func (g *Gen) copyBuiltin(c *ssa.CallCommon, args []Term, res ssa.Value) {
